@@ -21,7 +21,8 @@ RULE = (
     "every feasibility threshold on the borehole count, including 'one borehole already suffices'. Oracle from the evaluation "
     "log: selected field evaluated feasible at max height; count x height <= count_c x max height for every candidate "
     "evaluated feasible; (1-D and 2-D) predecessor of the selected candidate evaluated and infeasible; monotone => selected = "
-    "first feasible. root_l2 / design_root_l2: sampled real loads/soils (real GHE, surrogate long-time g): when the returned "
+    "first feasible. real_domains: the same drilling clause on real candidate lists (C03 lot generator; bi-zoned lists are not "
+    "monotone in borehole count) with a monotone-in-N model. root_l2 / design_root_l2: sampled real loads/soils (real GHE, surrogate long-time g): when the returned "
     "height is strictly inside the window, |excess| <= 1e-3 K by fresh-object replay. Non-trivial = threshold strictly inside "
     "the list or non-monotone pattern; root strictly inside the window. Enumerated cases are distinct by construction."
 )
@@ -248,6 +249,51 @@ def search_nested(ctx):
                         ctx.rec.sample(case)
 
 
+# ------------------------------------------------------------------------------------------ real candidate domains
+def check_real_domains(case, rec):
+    """real candidate lists (whose borehole count is NOT monotone along the list for bi-zoned lots) x monotone-in-N model:
+    the returned drilling must not exceed count x max height of any candidate the search evaluated feasible"""
+    from props import c02
+
+    with seams.l1_seam(None):
+        pass
+    res, out, h, fields, model, info = guarded(c02._run_l1, case, what="search construction")
+    log = list(seams.LOG)
+    if not fields or isinstance(res, Exception):
+        rec.cls("no_design")
+        return
+    if any(mk in out for mk in gs.ESCAPE_MARKERS):
+        rec.cls("escaped")
+        return
+    hmax = case["hmax"]
+    n_sel = len(res.selected_coordinates)
+    at_max = {}
+    for nb, first, hh, e in log:
+        if abs(hh - hmax) < 1e-9:
+            at_max[nb] = e
+    what = c02._search_cls(case["lot"]["method"]) + "/" + case["lot"]["method"]
+    if n_sel not in at_max or not at_max[n_sel] < 0:
+        raise Violation(f"{what}: selected field ({n_sel} boreholes) was not evaluated feasible at max height",
+                        sig={"kind": "selected_not_feasible", "what": what})
+    for nb, e in at_max.items():
+        if e < 0 and n_sel * h > nb * hmax * (1 + 1e-12):
+            raise Violation(f"{what}: returned drilling {n_sel} x {h:.3f} m exceeds {nb} x {hmax} m of a candidate the search itself "
+                            f"found feasible", sig={"kind": "oversized_vs_evaluated", "what": what})
+    sizes = [len(f) for f in fields]
+    nonmono = any(b < a for a, b in zip(sizes, sizes[1:]))
+    rec.cls("cls_" + what)
+    if nonmono:
+        rec.cls("list_not_monotone_in_count")
+        rec.nontriv(case)
+    rec.sample({"method": case["lot"]["method"], "N": n_sel, "H": h, "evaluated_at_max": len(at_max)})
+
+
+def search_real_domains(ctx):
+    from props import c02
+
+    ctx.given(c02.l1_case().map(lambda c: dict(c, mode="inside", cap=None, cont=False)), ctx.n(4000, 200_000))
+
+
 # ------------------------------------------------------------------------------------------ height is a root (real GHE)
 def check_root(case, rec):
     from ghedesigner.enums import TimestepType
@@ -304,10 +350,7 @@ def check_design_root(case, rec):
         disc = bool(guarded(gs.at_discontinuity, case, out.coords, out.H, "L2", what="discontinuity probe"))
         raise Violation(f"{case['method']}: returned H = {out.H} strictly inside the window but excess there is {e:.4g} K",
                         sig={"kind": "height_not_a_root", "at_discontinuity": disc, "side": "infeasible" if e > 0 else "oversized"})
-    # total drilling vs every candidate the search itself found feasible at max height
     n_sel = len(out.coords)
-    for row in out.search.searchTracker:
-        pass
     rec.cls("method_" + case["method"])
     rec.nontriv((case["method"], n_sel, round(out.H, 2)))
     rec.sample({"method": case["method"], "N": n_sel, "H": out.H, "excess": e})
@@ -325,6 +368,7 @@ SUBS = [
     Sub("b1d_threshold", check_b1d, search_b1d_threshold, shards=lambda t: 16, exhaustive=lambda t: t == "thorough"),
     Sub("b1d_patterns", check_b1d, search_b1d_patterns, shards=lambda t: 8, exhaustive=lambda t: True),
     Sub("nested", check_nested, search_nested, shards=lambda t: 4, exhaustive=lambda t: True),
+    Sub("real_domains", check_real_domains, search_real_domains, shards=lambda t: 8),
     Sub("root_l2", check_root, search_root, shards=lambda t: 8),
     Sub("design_root_l2", check_design_root, search_design_root, shards=lambda t: 16),
 ]
